@@ -69,6 +69,13 @@ Definition hit_in_bbox (a : fixarr) (sh : shape) : Prop :=
     finite_box (shape_bounds sh) /\
     box_outside (shape_bounds sh) (nth l (fa_bounds a) nanbox) = false.
 
+(* the premises of the end-to-end statements, bundled *)
+Definition contracts (mrg : merge_op) (cand : fixarr -> bbox -> list nat) (a : fixarr)
+           (rgeoms : list (option shape)) : Prop :=
+  merge_contract mrg /\ cand_contract (fa_len a) (fa_bounds a) (cand a) /\
+  array_form_contract a /\
+  Forall (fun s => match s with Some sh => hit_in_bbox a sh | None => True end) rgeoms.
+
 (* column naming: clashing names get the suffix of their side *)
 Definition suffixed (clash : list string) (sfx : string) (c : string) : string :=
   if mem c clash then sapp c (sapp "_" sfx) else c.
